@@ -162,7 +162,7 @@ theorem resolve_ztop (ast : Block) (hs : S6Top ast) (r : RBlock) (h : resolvePro
     compiling and running it (collections at every return) agrees with the definitional semantics, or stops at the
     machine's stack/frame limit -/
 theorem program6_syntactic (ast : Block) (r : RBlock) (bc : Bytecode) (hc : compileProgram ast = .ok (r, bc)) (hin : S6Top ast) (F : Nat) :
-    (∃ n s', ∀ k, runSteps bc.code (n + k) (VM.start {} bc) = .error .index s') ∨
+    HitsLimit bc ∨
     match evalB F r {} with
     | .val () st' => ∃ mv n s', (∀ k, runSteps bc.code (n + k) (VM.start {} bc) = .value mv s') ∧
         s'.mem.heap.tree treeDepth [] mv = st'.tree treeDepth [] st'.last ∧ s'.out = st'.out ∧
@@ -360,7 +360,7 @@ theorem src6Top_sound : (b : Block) → src6Top b = true → S6Top b
     its stack/frame limit -/
 theorem eval_text6_checked (cc : CharClass) (src : Text) (ast : Block) (r : RBlock) (bc : Bytecode) (hp : parse cc src = .ok ast)
     (hs : src6Top ast = true) (hc : compileProgram ast = .ok (r, bc)) (F : Nat) :
-    (∃ n out, ∀ k, evalText cc (n + k) src = .error .index out) ∨
+    TextHitsLimit cc src ∨
     match specText cc F src with
     | .value t out => ∃ n, ∀ k, evalText cc (n + k) src = .value t out
     | .error e out => ∃ n, ∀ k, evalText cc (n + k) src = .error e out
@@ -376,11 +376,8 @@ theorem eval_text6_checked (cc : CharClass) (src : Text) (ast : Block) (r : RBlo
       cases hcr : compileR r' with
       | error e => simp [hcr] at hc
       | ok bc' => simp only [hcr] at hc; injection hc with hc; injection hc with h1 h2; rw [h1]
-  rcases hsim with ⟨n, s', hn⟩ | hsim
-  · left
-    refine ⟨n, s'.out, fun k => ?_⟩
-    simp only [evalText, hp, hc, VM.run, hn k]
-    rfl
+  rcases hsim with hlim | hsim
+  · exact .inl (TextHitsLimit.of hp hc hlim)
   right
   simp only [specText, hp, hres, Spec.evalProgram]
   cases hr : evalB F r {} with
